@@ -861,7 +861,7 @@ func lawsOracle(ctx *common.Ctx, o *common.Oracle, cl []*claw) {
 	if err != nil {
 		panic(err)
 	}
-	exps := []any{0, 1, -1, 52, -52, 1023, 1024, -1022, -1074, -1075, -1076, 2000, -2000, 2147483647, -2147483648, bigOf("9223372036854775807"), bigOf("-9223372036854775807"), bigOf("-9223372036854775808"), 1e18, -1e18}
+	exps := []any{0, 1, -1, 52, -52, 1023, 1024, -1022, -1074, -1075, -1076, 2000, -2000, 2147483647, -2147483648, bigOf("9223372036854775807"), bigOf("-9223372036854775807"), bigOf("-9223372036854775808"), 1e18, -1e18, 4096, -4096, 4097, -4097, 4096.5, -4096.5, 1e300, -1e300, math.Inf(1), math.Inf(-1)}
 	for _, x := range []float64{0.5, -0.5, 1, 1.5, 3, 1e-7, 5e-324, 1e300, 0, math.Copysign(0, -1), 0.75, 2.2250738585072014e-308, 1.7976931348623157e308} {
 		for _, e := range exps {
 			ef, _ := numOf(e)
@@ -882,7 +882,7 @@ func lawsOracle(ctx *common.Ctx, o *common.Oracle, cl []*claw) {
 			if !ok {
 				ctx.Violate("law:ldexp-exact", fmt.Sprintf("ldexp(%v; %v) = %s, but %v·2^%v correctly rounded is %v", x, e, common.CanonOutcome(out), x, e, want),
 					map[string]any{"x": x, "e": fmt.Sprint(e), "observed": common.CanonOutcome(out), "expected": fmt.Sprint(want), "cmd": fmt.Sprintf("gojq -nc 'ldexp(%v; %v)'", x, e),
-						"note": "math.Ldexp adds the exponent of x to the count in int arithmetic, which wraps around next to MinInt64"})
+						"note": "math.Ldexp adds the exponent of x to the count in int arithmetic, which wraps around next to MinInt64; funcLdexp clamps the count to ±4096 first (f16ffcd)"})
 			}
 		}
 	}
